@@ -287,6 +287,16 @@ impl Visitor<Diagnostic> for LibraryRenderer {
         Ok(())
     }
 
+    fn visit_enumerated_value(&mut self, node: &EnumeratedValue) -> Result<Self::Value, Diagnostic> {
+        match &node.type_name {
+            Some(type_name) => self.write_ws(
+                format!("{}#{}", type_name.name.original(), node.value.original()).as_str(),
+            ),
+            None => self.write_ws(node.value.original().as_str()),
+        }
+        Ok(())
+    }
+
     fn visit_enumerated_specification_values(
         &mut self,
         node: &EnumeratedSpecificationValues,
